@@ -2,6 +2,7 @@ package main
 
 import (
 	"context"
+	"crypto/tls"
 	"encoding/json"
 	"errors"
 	"net/http"
@@ -88,6 +89,7 @@ type c09URL struct {
 	Host   []string `json:"host"`
 	Port   []string `json:"port"`
 	Path   []string `json:"path"`
+	Form   string   `json:"form"` // "server": path-only Request.URL, host[:port] in Request.Host, https as Request.TLS (optional)
 	Tail   string   `json:"tail"` // what follows the path: "?", "?a=1", "?a=1#top", "#top" (optional)
 }
 
@@ -352,6 +354,49 @@ func c09FindObs(r routers.Router, req *http.Request) (map[string]any, *routers.R
 	return obs, route
 }
 
+// c09Request builds the *http.Request of an abstract request: from its URL text (the form a client holds), or -- form
+// "server" -- the way net/http hands a request to a handler: Request.URL is the path and query, the host is in
+// Request.Host, and an https request shows as a non-nil Request.TLS.
+func c09Request(r c09Req) *http.Request {
+	u := r.U
+	if u.Form == "server" {
+		if !u.Abs || (u.Scheme != "http" && u.Scheme != "https") {
+			panic("harness: c09 server-form request needs an absolute http(s) URL")
+		}
+		rel := c09URL{Path: u.Path, Tail: u.Tail}
+		req, err := http.NewRequest(r.M, c09URLText(rel), nil)
+		if err != nil {
+			panic("harness: c09 request cannot be built: " + err.Error())
+		}
+		req.Host = strings.Join(u.Host, ".")
+		for _, p := range u.Port {
+			req.Host += ":" + p
+		}
+		req.RequestURI = req.URL.RequestURI()
+		if u.Scheme == "https" {
+			req.TLS = &tls.ConnectionState{}
+		}
+		return req
+	}
+	req, err := http.NewRequest(r.M, c09URLText(u), nil)
+	if err != nil {
+		panic("harness: c09 request cannot be built: " + err.Error())
+	}
+	return req
+}
+
+// c09RequestURL reads the request URL back from the request object, whatever its form.
+func c09RequestURL(req *http.Request) string {
+	if req.URL.IsAbs() || req.RequestURI == "" {
+		return req.URL.String()
+	}
+	scheme := "http"
+	if req.TLS != nil {
+		scheme = "https"
+	}
+	return scheme + "://" + req.Host + req.URL.String()
+}
+
 func c09Run(c *Case) []any {
 	var tc c09Case
 	c.Decode(&tc)
@@ -402,15 +447,10 @@ func c09Run(c *Case) []any {
 	ru, rm, og, ol := []any{}, []any{}, []any{}, []any{}
 	var heldG, heldL []*routers.Route // every route object returned during this case, kept by the caller
 	for _, r := range tc.Reqs {
-		mk := func() *http.Request {
-			req, err := http.NewRequest(r.M, c09URLText(r.U), nil)
-			if err != nil {
-				panic("harness: c09 request cannot be built: " + err.Error())
-			}
-			return req
-		}
+		r := r
+		mk := func() *http.Request { return c09Request(r) }
 		req := mk()
-		ru = append(ru, req.URL.String())
+		ru = append(ru, c09RequestURL(req))
 		rm = append(rm, req.Method)
 		o, rt := c09Find(g, req)
 		og, heldG = append(og, o), append(heldG, rt)
